@@ -313,24 +313,25 @@ theorem head_join (hT : TreeNet net c) (h : TInv net c s) {t : Nat} {th : Thread
 
 /-- `dropEpi` occurs in no program of a tree-shaped net -/
 theorem head_not_dropEpi (hT : TreeNet net c) (h : TInv net c s) {t : Nat} {th : Thread} {ts : TSt} {rest : List Instr}
-    (hth : net.threads[t]? = some th) (hts : s.thr[t]? = some ts) (hp : ts.prog = .dropEpi :: rest) : False := by
-  obtain ⟨_, hsuf⟩ := h.inBody hT hth hts hp ⟨by simp, by simp, by simp, by simp⟩
+    {i : Instr} (hi : i = .dropEpi ∨ ∃ ms, i = .setEpi ms)
+    (hth : net.threads[t]? = some th) (hts : s.thr[t]? = some ts) (hp : ts.prog = i :: rest) : False := by
+  obtain ⟨_, hsuf⟩ := h.inBody hT hth hts hp (by rcases hi with rfl | ⟨ms, rfl⟩ <;> exact ⟨by simp, by simp, by simp, by simp⟩)
   have hm := suffix_head_mem hsuf
   cases hT.kind hth with
   | main _ hok =>
     rcases hok.body_mem hm with h1 | h1 | h1
-    · cases h1
-    · simp [Instr.isFail] at h1
-    · rcases hok.epi_mem h1 with ⟨_, _, h2⟩ | ⟨_, _, h2⟩ | ⟨_, h2⟩ <;> cases h2
+    · rcases hi with rfl | ⟨ms, rfl⟩ <;> cases h1
+    · rcases hi with rfl | ⟨ms, rfl⟩ <;> simp [Instr.isFail] at h1
+    · rcases hok.epi_mem h1 with ⟨_, _, h2⟩ | ⟨_, _, h2⟩ | ⟨_, h2⟩ <;> rcases hi with rfl | ⟨ms, rfl⟩ <;> cases h2
   | sender m _ _ hok =>
     rcases hok.mem hm with h1 | h1
-    · cases h1
-    · simp [senderInstrOk] at h1
+    · rcases hi with rfl | ⟨ms, rfl⟩ <;> cases h1
+    · rcases hi with rfl | ⟨ms, rfl⟩ <;> simp [senderInstrOk] at h1
   | sink _ _ hok _ =>
     rcases hok.2.2.2.1 _ hm with h1 | h1 | h1
-    · cases h1
-    · simp [Instr.isFail] at h1
-    · simp [Instr.isDie] at h1
+    · rcases hi with rfl | ⟨ms, rfl⟩ <;> cases h1
+    · rcases hi with rfl | ⟨ms, rfl⟩ <;> simp [Instr.isFail] at h1
+    · rcases hi with rfl | ⟨ms, rfl⟩ <;> simp [Instr.isDie] at h1
 
 /-- the state with only the outcome changed satisfies the same invariant -/
 theorem TInv.withOutcome (h : TInv net c s) (o : Option Outcome) : TInv net c { s with outcome := o } :=
@@ -828,7 +829,8 @@ theorem TInv.step (hT : TreeNet net c) (h : TInv net c s) {t : Nat} {s' : NState
     exact h'.thrOnly hth hts (ThrObl.advance hT h' hth hts hp _ _ (fun _ x => x)
       (by intro m k he; cases he) (by intro m he; rcases he with he | he <;> cases he)
       (by intro m he; cases he) (by intro m he; cases he) (by intro u he; cases he))
-  | dropEpi => exact (head_not_dropEpi hT h hth hts hp).elim
+  | dropEpi => exact (head_not_dropEpi hT h (Or.inl rfl) hth hts hp).elim
+  | setEpi ms => exact (head_not_dropEpi hT h (Or.inr ⟨ms, rfl⟩) hth hts hp).elim
 
 end
 
